@@ -78,6 +78,7 @@ SPECS["C16"] = dict(
     theorems=[
         "Woodpile.Props.C16.refines_ordered_map",
         "Woodpile.Props.C16.run_refines_ordered_map",
+        "Woodpile.Props.C16.run_refines_from_container",
         "Woodpile.Props.C16.no_panic_valid",
         "Woodpile.Props.C16.ends_live",
         "Woodpile.Props.C16.push_panics_iff",
